@@ -211,10 +211,11 @@ CLAIMS.update({
               "nmax modes and returns base['evals']; gkl_sfi is radial column x azimuthal row of the same index; azimuthal rows are 1, cos, sin "
               "of the paired orders; piston_orth is Cannon's eq. 19 matrix; equal-area radial grid; selection by argsort(-eigenvalues); quadrature "
               "weight and eigenvector scalings sqrt(nr), sqrt(2 nr); the kernel is the azimuthal DFT (all nth samples, weight 2 pi/nth) of the structure "
-              "function of the chord length, stored symmetrically. NOT decided (most of the property): orthonormality to grid accuracy, zero "
+              "function of the chord length, stored symmetrically; rebin replicates with exactly the requested number of indices per axis (integer "
+              "arithmetic). NOT decided (most of the property): orthonormality to grid accuracy, zero "
               "mean, the diagonalised covariance, positivity and tip = tilt of the variances, the resampling error - all of which are values "
               "produced by eigh / map_coordinates at run time."),
-        note=("Trusted: scipy.ndimage.map_coordinates order=1 is bilinear interpolation at fractional indices; rebin replicates; eigh returns "
+        note=("Trusted: scipy.ndimage.map_coordinates order=1 is bilinear interpolation at fractional indices; eigh returns "
               "orthonormal eigenvectors; oracle text in sa/props/c13.py (Cannon 1996). Necessary conditions, not the behaviour.")),
 })
 
